@@ -138,6 +138,18 @@ def show_all(ts: T.Iterable[Term]) -> str:
     return ' | '.join(sorted(show(t) for t in ts))
 
 
+def _display_elements(it: ast.AST) -> T.Optional[T.List[T.Optional[ast.AST]]]:
+    """Elements of `[a, b] + f(...)`-like iterables: the spelled-out ones, None for the rest; None if nothing is spelled out."""
+    if isinstance(it, (ast.List, ast.Tuple)):
+        return [None if isinstance(e, ast.Starred) else e for e in it.elts]
+    if isinstance(it, ast.BinOp) and isinstance(it.op, ast.Add):
+        l, r = _display_elements(it.left), _display_elements(it.right)
+        if l is None and r is None:
+            return None
+        return (l if l is not None else [None]) + (r if r is not None else [None])
+    return None
+
+
 class FuncRef(T.NamedTuple):
     mod: Module
     qn: str
@@ -293,7 +305,12 @@ class PathSym:
                 if isinstance(n.target, ast.Name):
                     bind(n.target, ast.BinOp(left=ast.Name(id=n.target.id, ctx=ast.Load()), op=n.op, right=n.value))
             elif isinstance(n, (ast.For, ast.AsyncFor)):
-                bind(n.target, None)
+                elems = _display_elements(n.iter)
+                if isinstance(n.target, ast.Name) and elems is not None:
+                    for el in elems:
+                        bind(n.target, el)        # el is None for an element the display does not spell out
+                else:
+                    bind(n.target, None)
             elif isinstance(n, ast.comprehension):
                 bind(n.target, None)
             elif isinstance(n, (ast.With, ast.AsyncWith)):
@@ -405,6 +422,16 @@ class PathSym:
             r = self._module_func(mod, base, f.attr)
             if r is not None:
                 return r
+            # local bound once to an instance of a repository class: cfg = CmdLineFileParser(); cfg.m()
+            if '.' not in base:
+                d = self.local_defs(ref.node).get(base, [])
+                if len(d) == 1 and isinstance(d[0], ast.Call):
+                    cn0 = attr_chain(d[0].func)
+                    rc0 = self.resolve_class(mod, cn0) if cn0 else None
+                    if rc0 is not None:
+                        m0 = self._method(rc0[0], rc0[1], f.attr)
+                        if m0 is not None:
+                            return m0
             # annotated parameter
             if '.' not in base:
                 fn = ref.node
